@@ -23,7 +23,8 @@ LEVEL = 'proof'
 DRIVER = 'drv_c15'
 HARNESS = 'c15.cpp'
 SOURCES = []            # header-only: WrappableGrid.hpp / Grid.hpp are compiled into the harness
-PROOF_MODULES = ['RomeaProofs.Properties.C15', 'RomeaProofs.Bridge.C15', 'RomeaProofs.Lemmas.C15Odometer', 'RomeaProofs.Bridge.C15Loop', 'RomeaProofs.Bridge.C15Cor']
+PROOF_MODULES = ['RomeaProofs.Properties.C15', 'RomeaProofs.Bridge.C15', 'RomeaProofs.Lemmas.C15Odometer', 'RomeaProofs.Bridge.C15Loop', 'RomeaProofs.Bridge.C15Cor',
+                 'RomeaProofs.Bridge.C15Loop3', 'RomeaProofs.Bridge.C15Cor3']
 TRUSTED = ['tools/cxx2lean.py (Python over clang-14\'s JSON AST) translates Grid<int,DIM>::init, WrappableGrid<int,DIM>::wrapCellIndexes_ and '
            'computeCellLinearIndex_ (DIM = 2, 3) from the working tree into RomeaModel/Generated/SrcC15.lean on every run; '
            'RomeaProofs/Bridge/C15*.lean prove them equal to the model\'s wrap / coeffs / cellCount / linIdx (size_t arithmetic modulo 2^64, '
@@ -33,7 +34,11 @@ TRUSTED = ['tools/cxx2lean.py (Python over clang-14\'s JSON AST) translates Grid
            'bridged to the model (translate_2_quantities); the blanking loop nest is bridged too (Bridge/C15Loop.lean: each generated loop '
            'function is the generic odometer, odometer induction, translate_2_bridge: translated translate_2 = the model\'s WGrid.translate '
            'for every offset pair, fuel >= cells + 1) and translate_refines / history are restated about the translated code '
-           '(Bridge/C15Cor.lean part 3); DIM = 3 translate is not translated (correspondence check only)',
+           '(Bridge/C15Cor.lean part 3); WrappableGrid<int,3>::translate likewise (seven copies of the blanking loop = the three-level odometer '
+           'odo3, translate_3_quantities, Bridge/C15Loop3.lean: translate_3_bridge, fuel >= cells + 1; Bridge/C15Cor3.lean: '
+           'src_translate_refines_3, src_history_3); operator() const (a List.getD), the non-const operator() (translated as the LOCATION it '
+           'returns by reference: the index into buffer_) and Grid::setValue (std::fill over the whole buffer = List.replicate) are translated '
+           'and are what the DIM = 3 corollaries read and write through (for DIM = 2: srcRead2_is_operator_call, srcStep2_set_is_operator_ref)',
            'harness/c15.cpp drives WrappableGrid<int,2> / <int,3> through the public interface only; wg.save/wg.load use '
            'the implicit copy constructor',
            'the bounded-exhaustive space is enumerated with de-duplication of reachable states: the dump (offsets + all '
@@ -54,7 +59,8 @@ BRIDGE_SPEC = {
     'vector_encoding': 'plain',         # buffer_[i] -> List.getD / List.set (total; indexes are in range by the asserted preconditions)
     'id': 'C15',
     'headers': ['romea_core_common/containers/grid/WrappableGrid.hpp'],
-    'extra': ['template class romea::core::WrappableGrid<int, 2>;', 'template class romea::core::WrappableGrid<int, 3>;'],
+    'extra': ['template class romea::core::WrappableGrid<int, 2>;', 'template class romea::core::WrappableGrid<int, 3>;',
+              'template class romea::core::Grid<int, 2>;', 'template class romea::core::Grid<int, 3>;'],
     'unsigned_wrap': True,      # size_t index arithmetic is arithmetic modulo 2^64
     'fold_constant_conditions': True,   # `if (DIM == 3)` is decided per instantiation
     'unroll_constant_loops': True,      # `for (size_t axis = 0; axis < DIM; ++axis)` is unrolled
@@ -67,6 +73,13 @@ BRIDGE_SPEC = {
         {'cxx': 'WrappableGrid::computeCellLinearIndex_', 'cls': 'WrappableGrid<int, 2>', 'suffix': '_2'},
         {'cxx': 'WrappableGrid::computeCellLinearIndex_', 'cls': 'WrappableGrid<int, 3>', 'suffix': '_3'},
         {'cxx': 'WrappableGrid::translate', 'cls': 'WrappableGrid<int, 2>', 'suffix': '_2'},
+        {'cxx': 'WrappableGrid::translate', 'cls': 'WrappableGrid<int, 3>', 'suffix': '_3'},
+        {'cxx': 'WrappableGrid::operator()', 'cls': 'WrappableGrid<int, 2>', 'sig': ') const', 'suffix': '_const_2'},
+        {'cxx': 'WrappableGrid::operator()', 'cls': 'WrappableGrid<int, 3>', 'sig': ') const', 'suffix': '_const_3'},
+        {'cxx': 'WrappableGrid::operator()', 'cls': 'WrappableGrid<int, 2>', 'nosig': ') const', 'suffix': '_ref_2'},
+        {'cxx': 'WrappableGrid::operator()', 'cls': 'WrappableGrid<int, 3>', 'nosig': ') const', 'suffix': '_ref_3'},
+        {'cxx': 'Grid::setValue', 'cls': 'Grid<int, 2>', 'suffix': '_2'},
+        {'cxx': 'Grid::setValue', 'cls': 'Grid<int, 3>', 'suffix': '_3'},
     ],
 }
 
